@@ -1,6 +1,12 @@
 package core
 
-import "fmt"
+import (
+	"fmt"
+	"sort"
+	"strings"
+
+	"golang.org/x/tools/go/ssa"
+)
 
 // Dump prints the resolved call sites of a function (debug aid).
 func Dump(w *World, name string) {
@@ -34,5 +40,50 @@ func DumpSignatures(w *World) {
 			continue
 		}
 		fmt.Printf("%s\t%s\n", FuncName(f), SigKey(f))
+	}
+}
+
+
+// DumpSoleCallers prints, for every named function of the module that is
+// called statically from exactly one other named function (closures count for
+// the function they are nested in), "callee<TAB>caller".
+func DumpSoleCallers(w *World) {
+	callers := map[string]map[string]bool{}
+	for _, f := range w.Funcs() {
+		top := f
+		for top.Parent() != nil {
+			top = top.Parent()
+		}
+		for _, b := range f.Blocks {
+			for _, in := range b.Instrs {
+				ci, ok := in.(ssa.CallInstruction)
+				if !ok {
+					continue
+				}
+				g := ci.Common().StaticCallee()
+				if g == nil || g.Parent() != nil || g.Pkg == nil || !strings.HasPrefix(g.Pkg.Pkg.Path(), ModulePath) {
+					continue
+				}
+				n := FuncName(g)
+				if callers[n] == nil {
+					callers[n] = map[string]bool{}
+				}
+				callers[n][FuncName(top)] = true
+			}
+		}
+	}
+	var names []string
+	for n := range callers {
+		names = append(names, n)
+	}
+	sort.Strings(names)
+	for _, n := range names {
+		if len(callers[n]) == 1 {
+			for c := range callers[n] {
+				if c != n {
+					fmt.Printf("%s\t%s\n", n, c)
+				}
+			}
+		}
 	}
 }
